@@ -234,7 +234,9 @@ REF_OPS = [("set", "s1"), ("set", "bx"), ("set", "rh"), ("disconnect", None), ("
            ("refby", "h0"), ("refby", "h2"), ("hset", "h0"),
            # a reference to a port whose own connection is a reference (chains three links deep), and a chain whose root loses
            # its explicit signal, so that the whole chain hangs on one implicit net
-           ("chain", "h2"), ("h1drop", None)]
+           ("chain", "h2"), ("h1drop", None),
+           # a connect-by-call that fails part-way (its second argument is not connectable), is caught, and is followed by more edits
+           ("badcall", "rh"), ("badcall", "s1")]
 REF_VALS = {"s1": sig("s1"), "bx": bref("b1", "x"), "rh": pref("h1", "a")}
 # the same exploration on a bundle-valued port: bundle instance, anonymous bundle, reference to another instance's bundle port
 REF_VALS_T = {"s1": b("bA"), "bx": anon(x=sig("s1"), y=sig("vv")), "rh": pref("h1", "t")}
@@ -248,7 +250,7 @@ def ref_histories(depth):
         for hist in level:
             conn = None
             for op in hist:
-                if op[0] == "set":
+                if op[0] in ("set", "badcall"):  # the connection a failing call made before it failed stands
                     conn = op[1]
                 elif op[0] == "disconnect":
                     conn = None
@@ -334,6 +336,21 @@ def _ref_one(item):
                     return dict(kind="op", detail="replace() of an unconnected port did not raise")
                 except KeyError:
                     pass
+            elif op[0] == "badcall":
+                v = objs[op[1]] if op[1] != "rh" else getattr(ns["h1"], port)
+                before = dict(i.conns)
+                try:
+                    i(**{port: v, "zz_not_a_port": 3})
+                    return dict(kind="op", detail="connect-by-call with a non-connectable value did not raise")
+                except Exception:
+                    pass
+                # the part of the call made before the failure either stands or was taken back - both are sound, as long
+                # as what is built in the end is what `conns` says
+                if set(i.conns) == {port} and (dict(i.conns) != before):
+                    final["i"] = op[1]
+                elif dict(i.conns) != before:
+                    return dict(kind="conns", detail=f"after the failed call conns is {sorted(i.conns)}")
+                continue
             elif op[0] == "refby":
                 setattr(ns[op[1]], port, getattr(i, port))
                 final[op[1]] = "ref"
